@@ -309,9 +309,10 @@ def r4_flush(run, w):
     f = fn.fi
     for (n, c, nm) in calls_E(fn):
       if isinstance(c.func, ast.Attribute) and c.func.attr == "_recompute_step":
-        ok = f.qualname in ("engine.Engine._update_loop", "engine.Engine._recompute")
-        if f.qualname == "engine.Engine._recompute":
-          # only on the branch where an update loop is already running (any spelling of the guard)
+        ok = f.qualname == "engine.Engine._update_loop"
+        if not ok:
+          # elsewhere (Engine._recompute, or its body written in place in a caller): only on the
+          # branch where an update loop is already running (any spelling of the guard)
           ok = Flow(fn).guarded(n.id, lambda e, i: text(e) == "self._in_update_loop", True,
                                 extra_kills=_flag_writes(fn.cfg, "_in_update_loop"))
         run.ob(R4, f.qualname, short(c), "_recompute_step runs inside an update loop only", ok,
@@ -355,7 +356,10 @@ def r4_flush(run, w):
   #     from formula evaluation (via apply_doc_action) is guarded by `not self._in_update_loop`
   ad = w.fn("engine.Engine.apply_doc_action")
   cfg = ad.cfg
-  calls = [(n, c) for (n, c, nm) in calls_E(ad) if nm == "self._bring_mlookups_up_to_date"]
+  # ... the call of _bring_mlookups_up_to_date, or its body written in place (a frame opened by
+  # _pre_update() / an update loop started right here)
+  calls = [(n, c) for (n, c, nm) in calls_E(ad)
+           if nm in ("self._bring_mlookups_up_to_date", "self._pre_update", "self._update_loop")]
   if not calls:
     raise AnalysisError("apply_doc_action no longer calls _bring_mlookups_up_to_date")
   for (n, c) in calls:
